@@ -117,3 +117,110 @@ def u_delta(U):
         U.post('sign-times-modulus-is-v', list(p.pc), s_ * absv == v0)
         U.lemmas.append('rmul(x, y) = x * y (the abstract product of the element theory is the real product)')
         U.canary('canary-everywhere-v', ctx + facts + mdef + [Q(d - 1)] + powfact, T.ent(T.chain(R, ix, d - 1), 0, 0) == T.rmul(s_, absv), axioms=AXE)
+
+
+@unit('tensors.const.plain', props=('C19', 'C01'))
+def u_const(U):
+    """const(n, v) without a zero list: every entry of the tensor equals v (all shapes, all v incl. negative, tiny, zero)."""
+    d = z3.Int('d')
+    narr = z3.Const('n', IA)
+    v0 = z3.Real('v')
+    ix = z3.Const('ix', T.IDX)
+    t = z3.Int('t!c')
+
+    def setvars(ex, st):
+        st.vars.update(n=st.alloc(VSeq(narr, d, lambda x: x, tag='int')), v=v0, I_zero=NONE, i_non_zero=NONE)
+        return [d >= 2, z3.ForAll([t], z3.Implies(z3.And(0 <= t, t < d), narr[t] >= 1), patterns=[narr[t]])]
+
+    ex, st, res = _run_constructor(U, 'tensors', 'const', setvars, axioms=AXE + T.axioms('cscale'))
+    AX = ex.axioms
+    for p, o in res:
+        if o.kind != 'return':
+            U.post('no-exception', p, False, axioms=AX, mode='ematch')
+            continue
+        Ys = p.deref(o.value)
+        R = Ys.arr
+        s_, w = Z(p.vars['s']), Z(p.vars['v'])
+        ctx = list(p.pc) + [z3.ForAll([t], z3.Implies(z3.And(0 <= t, t < d), z3.And(0 <= ix[t], ix[t] < narr[t])), patterns=[ix[t]])]
+        tt, kk = z3.Int('tt'), z3.Int('kk')
+        U.post('d-cores', p, Ys.n == d, axioms=AX, mode='ematch')
+        U.post('rank-one-cores-of-the-requested-mode-sizes', p,
+               z3.Implies(z3.And(0 <= tt, tt < d), z3.And(T.d0(R[tt]) == 1, T.d1(R[tt]) == narr[tt], T.d2(R[tt]) == 1)), axioms=AX, mode='ematch')
+        entry = lambda k: z3.If(k == d - 1, T.rmul(s_, T.rmul(w, 1)), T.rmul(w, 1))
+        prod, facts = chain_scalar_lemma(U, 'const', ctx, R, ix, d, entry, AX)
+        wpow = z3.Function('wpow', z3.IntSort(), z3.RealSort())
+        mdef = [wpow(0) == w, z3.ForAll([k_, k2_], z3.Implies(z3.And(k_ >= 0, k2_ == k_ + 1, k2_ < d), wpow(k2_) == T.rmul(wpow(k_), w)),
+                                        patterns=[z3.MultiPattern(wpow(k_), wpow(k2_))])]
+        Q = lambda k: prod(k) == z3.If(k == d - 1, T.rmul(s_, wpow(k)), wpow(k))
+        lc = [T.rmul(wpow(kk - 1), T.rmul(s_, w)) == T.rmul(s_, T.rmul(wpow(kk - 1), w))]
+        U.lemma('product-is-w^(k+1).base', ctx + facts + mdef, Q(z3.IntVal(0)), axioms=AX, kind='lemma-base')
+        U.lemma('product-is-w^(k+1).step', ctx + facts + mdef + [kk >= 1, kk < d, Q(kk - 1)] + lc, Q(kk), axioms=AX, kind='lemma-step')
+        root = p.ghost.get('root', [])
+        if root:
+            (absv, dd, wr), = root
+            U.post('root-taken-of-|v|-with-exponent-1/d', p, z3.And(dd == z3.ToReal(d), absv == z3.If(v0 >= 0, v0, -v0), wr == w), axioms=AX)
+            powfact = [wpow(d - 1) == absv]
+            U.lemmas.append('L-ROOT: (x ** (1/d)) ** d = x for x >= 0 (used as wpow(d-1) = |v|)')
+        else:
+            U.post('tiny-values-are-carried-by-the-last-core-alone', p, z3.And(w == 1, s_ == v0), axioms=AX)
+            U.lemma('powers-of-one.base', ctx + mdef + [w == 1], wpow(0) == 1, axioms=AX, kind='lemma-base')
+            U.lemma('powers-of-one.step', ctx + mdef + [w == 1, kk >= 1, kk < d, wpow(kk - 1) == 1], wpow(kk) == 1, axioms=AX, kind='lemma-step')
+            absv = z3.RealVal(1)
+            powfact = [wpow(d - 1) == 1]
+        U.post('every-entry-is-s*w^d', ctx + facts + mdef + [Q(d - 1)] + powfact,
+               T.ent(T.chain(R, ix, d - 1), 0, 0) == T.rmul(s_, absv), axioms=AX, mode='ematch')
+        U.post('sign-times-modulus-is-v', list(p.pc), s_ * absv == v0)
+        U.lemmas.append('rmul(x, y) = x * y (the abstract product of the element theory is the real product)')
+        U.canary('canary-every-entry-is-w', ctx + facts + mdef + [Q(d - 1)] + powfact, T.ent(T.chain(R, ix, d - 1), 0, 0) == w, axioms=AX)
+
+
+@unit('vectors.vector_delta', props=('C19',))
+def u_vector_delta(U):
+    """vector_delta(q, i, v): the QTT vector is v at position i (negative positions counted from the end) and 0 elsewhere;
+    the entry at the bit string ix is val(Y, ix)."""
+    AXV = AXE + T.axioms('pow2') + SHR_DEF
+    q, i0 = z3.Int('q'), z3.Int('i')
+    v0 = z3.Real('v')
+    ix = z3.Const('ix', T.IDX)
+    t = z3.Int('t!v')
+    pos = z3.If(i0 >= 0, i0, T.pow2(q) + i0)
+
+    def inv(ex, s, j):
+        Ys = s.deref(s.vars['Y'])
+        ind = s.deref(s.vars['ind'])
+        return [('length', Ys.n == j),
+                ('unit-cores-at-the-bits', z3.ForAll([t], z3.Implies(z3.And(0 <= t, t < j), Ys.arr[t] == T.cset(T.zc(1, 2, 1), ind.arr[t], 1)),
+                                                     patterns=[Ys.arr[t]]))]
+
+    def setvars(ex, st):
+        st.vars.update(q=q, i=i0, v=v0)
+        return [q >= 1, i0 < T.pow2(q), i0 >= -T.pow2(q)]
+
+    ex, st, res = _run_constructor(U, 'vectors', 'vector_delta', setvars, loops={0: {'inv': inv}}, hints={'Y': 'tt'}, axioms=AXV)
+    for p, o in res:
+        if o.kind != 'return':
+            U.post('no-exception', p, False, axioms=AXV, mode='ematch')
+            continue
+        Ys = p.deref(o.value)
+        R = Ys.arr
+        ind = p.deref(p.vars['ind'])
+        ctx = list(p.pc) + [z3.ForAll([t], z3.Implies(z3.And(0 <= t, t < q), z3.And(0 <= ix[t], ix[t] < 2)), patterns=[ix[t]])]
+        tt, kk = z3.Int('tt'), z3.Int('kk')
+        U.post('q-cores', p, Ys.n == q, axioms=AXV, mode='ematch')
+        U.post('rank-one-cores-of-mode-size-2', p,
+               z3.Implies(z3.And(0 <= tt, tt < q), z3.And(T.d0(R[tt]) == 1, T.d1(R[tt]) == 2, T.d2(R[tt]) == 1)), axioms=AXV, mode='ematch')
+        U.post('position-bits-are-those-of-the-normalised-index', p,
+               z3.Implies(z3.And(0 <= tt, tt < q), ind.arr[tt] == bit(pos, tt)), axioms=AXV, mode='ematch')
+        entry = lambda k: z3.If(ix[k] == ind.arr[k], z3.If(k == q - 1, v0, 1), 0)
+        prod, facts = chain_scalar_lemma(U, 'vdelta', ctx, R, ix, q, entry, AXV)
+        match = z3.Function('match', z3.IntSort(), z3.BoolSort())
+        mdef = [match(0) == (ix[0] == ind.arr[0]),
+                z3.ForAll([k_, k2_], z3.Implies(z3.And(k_ >= 0, k2_ == k_ + 1, k2_ < q), match(k2_) == z3.And(match(k_), ix[k2_] == ind.arr[k2_])),
+                          patterns=[z3.MultiPattern(match(k_), match(k2_))])]
+        Q = lambda k: prod(k) == z3.If(match(k), z3.If(k == q - 1, v0, 1), 0)
+        U.lemma('product-is-1-on-the-matching-prefix-(v-at-the-end)-else-0.base', ctx + facts + mdef, Q(z3.IntVal(0)), axioms=AXV, kind='lemma-base')
+        U.lemma('product-is-1-on-the-matching-prefix-(v-at-the-end)-else-0.step', ctx + facts + mdef + [kk >= 1, kk < q, Q(kk - 1)], Q(kk),
+                axioms=AXV, kind='lemma-step')
+        U.post('entry-is-v-at-the-bit-string-of-the-position-and-0-elsewhere', ctx + facts + mdef + [Q(q - 1)],
+               T.ent(T.chain(R, ix, q - 1), 0, 0) == z3.If(match(q - 1), v0, 0), axioms=AXV, mode='ematch')
+        U.canary('canary-everywhere-v', ctx + facts + mdef + [Q(q - 1)], T.ent(T.chain(R, ix, q - 1), 0, 0) == v0, axioms=AXV)
